@@ -112,8 +112,8 @@ func c21ops() []vop {
 		{"setpagemode", 6, "", func(d string, in []byte, v int) ([][]byte, error) {
 			return buf(func(rs io.ReadSeeker, w io.Writer) error { return api.SetPageMode(rs, w, model.PageMode(v), newConf()) }, in)
 		}},
-		{"setviewerprefs", 3, "", func(d string, in []byte, v int) ([][]byte, error) {
-			js := []string{`{"hideToolbar": true}`, `{"fitWindow": true, "nonFullScreenPageMode": "UseOutlines", "duplex": "simplex"}`, `{"printScaling": "none", "numCopies": 3, "printPageRange": [1, 2]}`}[v]
+		{"setviewerprefs", len(c21ViewerPrefs), "", func(d string, in []byte, v int) ([][]byte, error) {
+			js := c21ViewerPrefs[v]
 			return buf(func(rs io.ReadSeeker, w io.Writer) error { return api.SetViewerPreferencesFromJSONBytes(rs, w, []byte(js), newConf()) }, in)
 		}},
 		{"addboxes", 8, "", func(d string, in []byte, v int) ([][]byte, error) {
@@ -464,3 +464,41 @@ func runC21(r *core.R) {
 		}
 	})
 }
+
+
+// c21ViewerPrefs: one JSON per field x boundary value (values pdfcpu refuses are counted as refusals; whatever
+// it accepts must yield a document that validates).
+var c21ViewerPrefs = func() []string {
+	out := []string{
+		`{"hideToolbar": true}`,
+		`{"fitWindow": true, "nonFullScreenPageMode": "UseOutlines", "duplex": "simplex"}`,
+		`{"printScaling": "none", "numCopies": 3, "printPageRange": [1, 2]}`,
+	}
+	for _, k := range []string{"hideToolbar", "hideMenubar", "hideWindowUI", "fitWindow", "centerWindow", "displayDocTitle", "pickTrayByPDFSize"} {
+		out = append(out, `{"`+k+`": true}`, `{"`+k+`": false}`)
+	}
+	for _, v := range []string{"UseNone", "UseOutlines", "UseThumbs", "UseOC"} {
+		out = append(out, `{"nonFullScreenPageMode": "`+v+`"}`)
+	}
+	for _, v := range []string{"L2R", "R2L"} {
+		out = append(out, `{"direction": "`+v+`"}`)
+	}
+	for _, k := range []string{"viewArea", "viewClip", "printArea", "printClip"} {
+		for _, v := range []string{"MediaBox", "CropBox", "TrimBox", "BleedBox", "ArtBox"} {
+			out = append(out, `{"`+k+`": "`+v+`"}`)
+		}
+	}
+	for _, v := range []string{"none", "appDefault"} {
+		out = append(out, `{"printScaling": "`+v+`"}`)
+	}
+	for _, v := range []string{"simplex", "duplexFlipShortEdge", "duplexFlipLongEdge"} {
+		out = append(out, `{"duplex": "`+v+`"}`)
+	}
+	for _, v := range []string{"[1, 2]", "[1, 1]", "[2, 2]", "[1, 2, 4, 4]", "[1, 2, 3, 4]", "[2, 1]", "[1, 2, 2, 3]", "[0, 1]", "[1]", "[]", "[3, 9]"} {
+		out = append(out, `{"printPageRange": `+v+`}`)
+	}
+	for _, v := range []string{"0", "1", "3", "-1", "1000000"} {
+		out = append(out, `{"numCopies": `+v+`}`)
+	}
+	return out
+}()
